@@ -182,3 +182,19 @@ Theorem c20_tie_consume_partition : forall s k off topic topic_pcs pc_entry,
   consumed' = consumed_of s' k /\ acts = map crep_act (t_rep e) /\ consume_obs pc g = t_obs e.
 Proof. exact tie_consume_partition. Qed.
 Print Assumptions c20_tie_consume_partition.
+
+(* concurrent yielders (serialised by the mock's mutex): the offsets handed out do not depend on the order in which the callers
+   win the mutex — two scripts accepting the same number of messages on a partition give the same offsets position by position —
+   and they are consecutive from 1 in delivery order *)
+Theorem c20_consumer_offsets_order_independent : forall acts acts' k,
+  length (accepted k (snd (crun cinit acts))) = length (accepted k (snd (crun cinit acts'))) ->
+  map snd (reads k (snd (crun cinit acts)) ++ dropped k (snd (crun cinit acts)) ++ queue k (fst (crun cinit acts))) =
+  map snd (reads k (snd (crun cinit acts')) ++ dropped k (snd (crun cinit acts')) ++ queue k (fst (crun cinit acts'))).
+Proof. exact consumer_offsets_order_independent. Qed.
+Print Assumptions c20_consumer_offsets_order_independent.
+
+Theorem c20_consumer_offsets_consecutive : forall acts k,
+  map snd (reads k (snd (crun cinit acts)) ++ dropped k (snd (crun cinit acts)) ++ queue k (fst (crun cinit acts))) =
+  map (fun i => (1 + Z.of_nat i)%Z) (seq 0 (length (accepted k (snd (crun cinit acts))))).
+Proof. exact consumer_offsets_consecutive. Qed.
+Print Assumptions c20_consumer_offsets_consecutive.
